@@ -26,7 +26,9 @@ RULE = (
     "currents for every combination of gate-state alphabet values x conductance/reversal/shift valuations; default tables; "
     "change_name for every prefix kind and every ordered pair of prefixes, on the default instance and on an instance whose "
     "stored parameter/state values were all changed to distinct non-default values (keys, values carried unchanged to "
-    "the mapped keys, and bitwise identical dynamics/currents under the key map); distinct = (mechanism, gate, parameter setting, route, observable, regime bucket) resp. "
+    "the mapped keys, and bitwise identical dynamics/currents under the key map); the numpy route: init_state / update_states / "
+    "compute_current called in sequence on the SAME writable numpy voltage and state arrays with Python-float and numpy parameters must "
+    "leave the caller's arrays untouched and agree with the jax-array route; distinct = (mechanism, gate, parameter setting, route, observable, regime bucket) resp. "
     "(mechanism, valuation, state combination) resp. (mechanism, prefix chain)"
 )
 RATE_GATES = [(m, g) for m in refkin.CHANNELS + ["IonotropicSynapse"] for g in refkin.MECHS[m]["gates"]]
@@ -39,7 +41,7 @@ REQUIRED_COVER = (
     + [f"defaults:{m}" for m in DEFAULT_MECHS]
     + [f"rename:{k}" for k in PREFIX_KINDS]
     + [f"current:{m}" for m in CURRENT_MECHS]
-    + ["singular_voltage_exact", "exp_clip_regime"]
+    + ["singular_voltage_exact", "exp_clip_regime", "numpy_route", "numpy_arrays_reused_across_calls"]
 )
 ASSUMPTIONS = [
     "kinetics are compared on observables (steady state abs 1e-6; propagator exp(-dt/tau) abs 1e-6 for dt in the "
@@ -100,6 +102,8 @@ def _items(tier):
         items.append({"kind": "defaults", "mech": mech})
     for mech in refkin.CHANNELS + refkin.SYNAPSES + ["TanhRateSynapse"]:
         items.append({"kind": "rename", "mech": mech, "tier": tier})
+    for mech in refkin.CHANNELS + refkin.SYNAPSES:
+        items.append({"kind": "numpy_route", "mech": mech})
     return items
 
 
@@ -323,6 +327,81 @@ def check_defaults(mech, out):
     out["cover"].append(f"defaults:{mech}")
 
 
+# ----------------------------------------------------------------------------- caller's arrays (numpy route)
+NP_VOLTAGES = [-95.0, -80.0, -70.0, -63.0, -55.0, -47.5, -40.0, -31.0, -27.0, -20.0, -10.0, 0.0, 12.5, 30.0, 55.0, 110.0]
+
+
+def check_numpy_route(mech, out):
+    """The public mechanism API called the way a user explores kinetics: writable numpy voltage/state arrays and Python-float (or
+    numpy) parameters, the SAME arrays handed to several calls in a row.  Every call must leave its inputs untouched and return
+    what the jax-array route returns (which the other items judge against the published formulas)."""
+    import jax.numpy as jnp
+
+    inst = kl.instance(mech, fresh=True)
+    syn = kl.is_synapse(mech)
+    n = len(NP_VOLTAGES)
+    v0 = np.asarray(NP_VOLTAGES, dtype=np.float64)
+    pkeys = refkin.param_keys(mech, mech)
+    defaults = refkin.defaults(mech)
+    skeys = refkin.state_keys(mech, mech)
+    dt = 0.025
+    for pform in ("python_float", "numpy_array"):
+        params_np = {pkeys[k]: (float(val) if pform == "python_float" else np.full(n, val, dtype=np.float64)) for k, val in defaults.items()}
+        states_np = {k: np.full(n, 0.3, dtype=np.float64) for k in skeys.values()}
+        params_j = {k: jnp.full(n, float(np.asarray(a).reshape(-1)[0])) for k, a in params_np.items()}
+        states_j = {k: jnp.asarray(a) for k, a in states_np.items()}
+        vj = jnp.asarray(v0)
+        v = v0.copy()  # the one array every call of the sequence receives
+        calls = []
+        if not syn:
+            calls.append(("init_state", lambda: inst.init_state(states_np, v, params_np, dt), lambda: inst.init_state(states_j, vj, params_j, dt)))
+            calls.append(("update_states", lambda: inst.update_states(states_np, dt, v, params_np), lambda: inst.update_states(states_j, dt, vj, params_j)))
+            calls.append(("compute_current", lambda: inst.compute_current(states_np, v, params_np), lambda: inst.compute_current(states_j, vj, params_j)))
+            calls.append(("update_states", calls[1][1], calls[1][2]))
+            calls.append(("init_state", calls[0][1], calls[0][2]))
+        else:
+            calls.append(("update_states", lambda: inst.update_states(states_np, dt, v, v, params_np), lambda: inst.update_states(states_j, dt, vj, vj, params_j)))
+            calls.append(("compute_current", lambda: inst.compute_current(states_np, v, v, params_np), lambda: inst.compute_current(states_j, vj, vj, params_j)))
+            calls.append(("update_states", calls[0][1], calls[0][2]))
+        for pos, (cname, f_np, f_j) in enumerate(calls):
+            out["evals"] += 1
+            wit = {"kind": "numpy_route", "mech": mech, "params_as": pform, "call": cname, "position": pos}
+            try:
+                got = f_np()
+            except Exception as e:
+                out["refusals"].append(f"numpy_inputs:{mech}:{cname}:{type(e).__name__}")
+                continue
+            want = f_j()
+            if not np.array_equal(v, v0):
+                bad = int(np.argmax(v != v0))
+                out["violations"].append(_viol({"rule": "caller_array_mutated", "mech": mech, "call": cname, "what": "voltage"}, wit,
+                                               f"{mech}.{cname} changed the caller's voltage array: {v0[bad]} -> {v[bad]}"))
+                v = v0.copy()
+                continue
+            if any(not np.array_equal(a, 0.3 * np.ones(n)) for a in states_np.values()):
+                out["violations"].append(_viol({"rule": "caller_array_mutated", "mech": mech, "call": cname, "what": "states"}, wit,
+                                               f"{mech}.{cname} changed the caller's state arrays"))
+                states_np = {k: np.full(n, 0.3, dtype=np.float64) for k in skeys.values()}
+                continue
+            gd = got if isinstance(got, dict) else {"current": got}
+            wd = want if isinstance(want, dict) else {"current": want}
+            for k in wd:
+                a = np.broadcast_to(np.asarray(gd.get(k, np.nan), dtype=np.float64), (n,))
+                b = np.broadcast_to(np.asarray(wd[k], dtype=np.float64), (n,))
+                err = np.abs(a - b) / (1e-300 + np.maximum(np.abs(b), 1e-12))
+                ok = (err <= 1e-9) | (np.isnan(a) & np.isnan(b))
+                if not ok.all():
+                    j = int(np.argmin(ok))
+                    out["violations"].append(_viol({"rule": "numpy_route_differs", "mech": mech, "call": cname, "first_call": pos == 0}, dict(wit, v=float(v0[j])),
+                                                   f"{mech}.{cname} (call #{pos} on the same numpy arrays, params as {pform}) {k} at v={v0[j]}: {a[j]} vs {b[j]} through jax arrays"))
+                    break
+            else:
+                out["digests"].append(digest([mech, cname, pos, pform]))
+                out["cover"].append("numpy_route")
+                if pos > 0:
+                    out["cover"].append("numpy_arrays_reused_across_calls")
+
+
 # ----------------------------------------------------------------------------- renaming
 def _tables(inst):
     syn = kl.isinstance_syn(inst)
@@ -531,6 +610,8 @@ def work(item):
         check_current(mech, item["val"], v, out)
     elif k == "defaults":
         check_defaults(mech, out)
+    elif k == "numpy_route":
+        check_numpy_route(mech, out)
     elif k == "rename":
         v = rename_voltages(mech, item["tier"])
         for chain, kinds in rename_chains(mech):
@@ -566,4 +647,6 @@ def replay(w):
         check_defaults(w["mech"], out)
     elif k == "rename":
         check_rename(w["mech"], w["chain"], rename_voltages(w["mech"], "quick"), out, custom=bool(w.get("custom")))
+    elif k == "numpy_route":
+        check_numpy_route(w["mech"], out)
     return out["violations"]
